@@ -533,42 +533,50 @@ def _apply_end_to_end(ctx, rid, reg):
         else:
             ncomp = {m: 1 for m in mods}
             comp = {m: [0] * 4 for m in mods}
-        # parameter layout: two unrelated parameters first, then the modifiers in REVERSE listing order
-        start, off, pm = {}, 2, {"other": {"slice": sl(0, 2)}}
-        for m in reversed(mods):
-            start[m] = off
-            pm[m] = {"slice": sl(off, off + ncomp[m])}
-            off += ncomp[m]
-        npars = off
-        for bs in (None, 2):
-            rows = bs or 1
-            site = f"{cl.relpath}::{cl.name} end to end [batch_size={bs}]"
-            try:
-                w = viewers.world(repo)
-                w.add_class(cl)
-                bd = {f"{key}/{m}": {s_: {"data": {"mask": list(masks[m][s_]), "nom_data": [at(f"n{j}") for j in range(4)], "uncrt": [at(f"u{j}") for j in range(4)]}} for s_ in samples} for m in mods}
-                cfg = Obj("pdfconfig", {"samples": list(samples), "channels": list(channels), "channel_nbins": {k_: c(v_) for k_, v_ in nb.items()}, "npars": c(npars), "par_map": pm, "par_order": list(pm)})
-                _config_methods(w, cfg, pm)
-                inst = w.new(cl, [[(m, key) for m in mods], cfg, bd], {"batch_size": None if bs is None else c(bs)})
-                pars = [at(f"p{j}") for j in range(npars)] if bs is None else [[at(f"p{r}_{j}") for j in range(npars)] for r in range(rows)]
-                out = w.call_method(inst, "apply", [pars])
-                got = [[[[str(to_poly(x)) for x in row] for row in smp] for smp in mod] for mod in out]
-                pname = (lambda r, j: f"p{j}") if bs is None else (lambda r, j: f"p{r}_{j}")
-                want = [[[[pname(r, start[m] + comp[m][j]) if masks[m][s_][j] else "1" for j in range(4)] for r in range(rows)] for s_ in samples] for m in mods]
-                if got == want:
-                    ctx.holds(rid, site, f"{len(mods)} x 2 x {rows} x 4 cells: own parameter where declared, 1 elsewhere")
-                else:
-                    bad = next(((mi, si, r, j) for mi in range(len(want)) for si in range(2) for r in range(rows) for j in range(4) if mi >= len(got) or si >= len(got[mi]) or r >= len(got[mi][si]) or j >= len(got[mi][si][r]) or got[mi][si][r][j] != want[mi][si][r][j]), None)
-                    mi, si, r, j = bad
-                    try:
-                        g_ = got[mi][si][r][j]
-                    except IndexError:
-                        g_ = "<missing>"
-                    ctx.violated(rid, cl.methods["apply"], f"{cl.name} factor [batch_size={bs}]", f"the factor of modifier {mods[mi]} on sample {samples[si]}, batch row {r}, global bin {j} is {g_}; the rate formula wants {want[mi][si][r][j]} (own parameter component where the sample declares the modifier, 1 elsewhere)", expected=str(want), found=str(got))
-            except FragmentFault as e:
-                ctx.violated(rid, cl, f"{cl.name} end to end [batch_size={bs}]", f"on a well-formed configuration the code indexes outside its own tensors: {e}")
-            except (Undecided, KeyError, TypeError, ValueError, IndexError, AttributeError) as e:
-                ctx.unrecognised(rid, cl, f"{cl.name} end to end [batch_size={bs}]", f"not interpretable: {type(e).__name__}: {e}")
+        # two parameter layouts: two unrelated parameters first and the modifiers after them in REVERSE listing order; and the
+        # modifiers' parameters at the very START of the vector (parameter index 0 is a real parameter of the modifier)
+        for layout in ("unrelated parameters first", "modifier parameters from index 0"):
+            start, pm = {}, {}
+            off = 2 if layout == "unrelated parameters first" else 0
+            if off:
+                pm["other"] = {"slice": sl(0, 2)}
+            for m in reversed(mods):
+                start[m] = off
+                pm[m] = {"slice": sl(off, off + ncomp[m])}
+                off += ncomp[m]
+            if "other" not in pm:
+                pm["other"] = {"slice": sl(off, off + 2)}
+                off += 2
+            npars = off
+            for bs in (None, 2):
+                rows = bs or 1
+                site = f"{cl.relpath}::{cl.name} end to end [batch_size={bs}, {layout}]"
+                try:
+                    w = viewers.world(repo)
+                    w.add_class(cl)
+                    bd = {f"{key}/{m}": {s_: {"data": {"mask": list(masks[m][s_]), "nom_data": [at(f"n{j}") for j in range(4)], "uncrt": [at(f"u{j}") for j in range(4)]}} for s_ in samples} for m in mods}
+                    cfg = Obj("pdfconfig", {"samples": list(samples), "channels": list(channels), "channel_nbins": {k_: c(v_) for k_, v_ in nb.items()}, "npars": c(npars), "par_map": pm, "par_order": list(pm)})
+                    _config_methods(w, cfg, pm)
+                    inst = w.new(cl, [[(m, key) for m in mods], cfg, bd], {"batch_size": None if bs is None else c(bs)})
+                    pars = [at(f"p{j}") for j in range(npars)] if bs is None else [[at(f"p{r}_{j}") for j in range(npars)] for r in range(rows)]
+                    out = w.call_method(inst, "apply", [pars])
+                    got = [[[[str(to_poly(x)) for x in row] for row in smp] for smp in mod] for mod in out]
+                    pname = (lambda r, j: f"p{j}") if bs is None else (lambda r, j: f"p{r}_{j}")
+                    want = [[[[pname(r, start[m] + comp[m][j]) if masks[m][s_][j] else "1" for j in range(4)] for r in range(rows)] for s_ in samples] for m in mods]
+                    if got == want:
+                        ctx.holds(rid, site, f"{len(mods)} x 2 x {rows} x 4 cells: own parameter where declared, 1 elsewhere")
+                    else:
+                        bad = next(((mi, si, r, j) for mi in range(len(want)) for si in range(2) for r in range(rows) for j in range(4) if mi >= len(got) or si >= len(got[mi]) or r >= len(got[mi][si]) or j >= len(got[mi][si][r]) or got[mi][si][r][j] != want[mi][si][r][j]), None)
+                        mi, si, r, j = bad
+                        try:
+                            g_ = got[mi][si][r][j]
+                        except IndexError:
+                            g_ = "<missing>"
+                        ctx.violated(rid, cl.methods["apply"], f"{cl.name} factor [batch_size={bs}]", f"the factor of modifier {mods[mi]} on sample {samples[si]}, batch row {r}, global bin {j} is {g_}; the rate formula wants {want[mi][si][r][j]} (own parameter component where the sample declares the modifier, 1 elsewhere)", expected=str(want), found=str(got))
+                except FragmentFault as e:
+                    ctx.violated(rid, cl, f"{cl.name} end to end [batch_size={bs}]", f"on a well-formed configuration the code indexes outside its own tensors: {e}")
+                except (Undecided, KeyError, TypeError, ValueError, IndexError, AttributeError) as e:
+                    ctx.unrecognised(rid, cl, f"{cl.name} end to end [batch_size={bs}]", f"not interpretable: {type(e).__name__}: {e}")
 
 
 def _build_end_to_end(ctx, rid, reg):
